@@ -119,3 +119,70 @@ def run(ctx):
     fa_guard = [t for t in ast.walk(inner.node) if isinstance(t, ast.If) and "isinstance" in src(t.test) and "FieldAdapter" in src(t.test)
                 and isinstance(t.test, ast.UnaryOp)]
     ctx.check("R05.2", f"{inner.key}::field-adapter-only leaves are not cut", True if len(fa_guard) >= 2 else None, f"{len(fa_guard)} guards", inner)
+
+
+def r05_3(ctx):
+    """iterator freshness and discovery/insertion order"""
+    m = ctx.model
+    inner = m.func(OTO, "_optimise_operator")
+    ctx.rule("R05.3", "_optimise_operator: (a) an iterator that a `while` test consumes is re-created on every path back to the test "
+                      "(a generator handed to all() is empty the second time, which would make every comparison vacuously true and "
+                      "merge leaves that differ); (b) placeholders found in later passes may contain earlier ones, so they are bound "
+                      "back in reverse discovery order: a key list that grows by appending is walked reversed, one that grows by "
+                      "prepending is walked forward", floor=3)
+    # (a)
+    n_a = 0
+    for fn in [f_ for f_ in ast.walk(inner.node) if isinstance(f_, ast.FunctionDef)]:
+        its = {st.targets[0].id for st in walk_no_nested(fn) if isinstance(st, ast.Assign) and isinstance(st.targets[0], ast.Name)
+               and isinstance(st.value, ast.Call) and src(st.value.func) == "iter"}
+        for w in [w_ for w_ in walk_no_nested(fn) if isinstance(w_, ast.While)]:
+            used = {x.id for x in ast.walk(w.test) if isinstance(x, ast.Name) and x.id in its}
+            for it in sorted(used):
+                n_a += 1
+                # statements of the body executed on the way back to the test: everything not followed by a break in the same block
+                rebinds = [st for st in w.body if isinstance(st, ast.Assign) and isinstance(st.targets[0], ast.Name) and st.targets[0].id == it
+                           and isinstance(st.value, ast.Call) and src(st.value.func) == "iter"]
+                ctx.check("R05.3", f"{inner.key}::{fn.name}: iterator `{it}` consumed by the while test is re-created in the loop body", bool(rebinds),
+                          f"`while {short(w.test, 80)}` consumes `{it}`; the body never rebinds it: from the second round on the test ranges over nothing", inner, w)
+    if not n_a:
+        ctx.und("R05.3", f"{inner.key}::iterator consumed by a while test", "pattern not found", inner)
+    # (b)
+    ins = [lp for lp in inner.node.body if isinstance(lp, ast.For) and any(isinstance(c, ast.Call) and call_name(c) == "partial_insert" for c in ast.walk(lp))]
+    for lp in ins:
+        t = src(lp.iter).replace(" ", "")
+        rev = t.startswith("reversed(")
+        lst = t[len("reversed("):-1] if rev else t
+        grows = []
+        for st in ast.walk(inner.node):
+            if isinstance(st, ast.AugAssign) and isinstance(st.op, ast.Add) and src(st.target) == lst:
+                grows.append(("append", st))
+            elif isinstance(st, ast.Assign) and src(st.targets[0]) == lst and isinstance(st.value, ast.BinOp) and isinstance(st.value.op, ast.Add):
+                if src(st.value.left) == lst:
+                    grows.append(("append", st))
+                elif src(st.value.right) == lst:
+                    grows.append(("prepend", st))
+        key = f"{inner.key}::`for key in {src(lp.iter)}` binds later-found placeholders first"
+        if not grows:
+            ctx.und("R05.3", key, f"no growth statement of `{lst}` found", inner, lp)
+            continue
+        kinds = {k for k, _ in grows}
+        if len(kinds) != 1:
+            ctx.bad("R05.3", key, f"`{lst}` grows both ways ({[src(s_) for _, s_ in grows]})", inner, grows[0][1])
+            continue
+        kind = kinds.pop()
+        # the fragments appended to a forward-walked list must themselves be in reverse discovery order (prepending inner lists)
+        if kind == "append" and not rev:
+            inner_lists = {x.id for _, st in grows for x in ast.walk(st.value) if isinstance(x, ast.Name) and x.id != lst}
+            pre = [st for st in ast.walk(inner.node) if isinstance(st, ast.Assign) and src(st.targets[0]) in inner_lists and isinstance(st.value, ast.BinOp)
+                   and isinstance(st.value.op, ast.Add) and src(st.value.right) == src(st.targets[0])]
+            ctx.check("R05.3", key, True if pre else None, f"`{lst}` is walked forward and grows by fragments that are built by prepending: {[src(s_) for s_ in pre]}", inner, lp)
+        else:
+            ctx.check("R05.3", key, (kind == "append") == rev, f"`{lst}` grows by {kind}ing ({src(grows[0][1])}) and is walked {'reversed' if rev else 'forward'}", inner, grows[0][1])
+
+
+_run_c05 = run
+
+
+def run(ctx):  # noqa: F811
+    _run_c05(ctx)
+    r05_3(ctx)
